@@ -9,7 +9,7 @@ import numpy as np
 from .common import Disagreement, drive, q, qs, parse_qs, ROOT
 
 PROP_MODULE = 'PbVerif.Props.C12'
-RULE = ('cases = (x kind, N, num_knots, degree, weight pattern); three-way comparison real basis / exact-rational model on the real '
+RULE = ('cases = (x kind, N, num_knots, degree, weight pattern) and (1-D / 2-D fitter reused over a history of (num_knots, degree) requests, half of the steps keeping the number of basis functions); three-way comparison real basis / exact-rational model on the real '
         'knots / scipy BSpline; non-trivial = degree >= 1 or points on knots; distinct by canonical tuple')
 ASSUMPTIONS = [
     'floating-point de Boor recursion differs from the exact rational one by at most 64*eps*(degree+1) per entry',
@@ -47,6 +47,73 @@ def dense_from_model(line_out, deg, nb, n):
         for j, val in enumerate(parse_qs(v)):
             M[i][l - deg + j] = val
     return M, lefts
+
+
+# ---------------------------------------------------------------------------------------------------------------------------------
+# the design matrix a spline METHOD uses: one fitter object serves a history of spline calls with different (num_knots, degree); after
+# every call the basis the method was given (and the public tck it returns) must be the B-spline basis of the REQUESTED knots and degree
+def fitter_histories(ctx, rng):
+    out = []
+    for _ in range(40 if ctx.thorough else 12):
+        two_d = rng.random() < 0.3
+        L = int(rng.integers(2, 5))
+        hist = []
+        nk, deg = int(rng.integers(4, 14)), int(rng.integers(1, 5))
+        for _ in range(L):
+            hist.append((nk, deg))
+            r = rng.random()
+            if r < 0.45:        # same number of basis functions, different pair
+                nd = int(rng.integers(1, 5))
+                nk, deg = max(2, nk + deg - nd), nd
+            elif r < 0.6:       # identical request (the cache must be reused)
+                pass
+            elif r < 0.8:
+                nk = int(rng.integers(4, 14))
+            else:
+                deg = int(rng.integers(1, 5))
+        out.append((two_d, hist))
+    return out
+
+
+def fitter_history_fail(two_d, hist, x, z=None):
+    """returns the description of the first failing step, or None"""
+    import warnings
+    from pybaselines import Baseline, Baseline2D, _spline_utils as su
+    from scipy.interpolate import BSpline
+    with warnings.catch_warnings():
+        warnings.simplefilter('ignore')
+        if not two_d:
+            fit = Baseline(x)
+            y = 3 + np.sin(np.linspace(0, 3, len(x)))
+            for step, (nk, deg) in enumerate(hist):
+                _, _, ps = fit._setup_spline(y, None, deg, nk, True, 1, 1.0)
+                knots = su._spline_knots(fit.x, nk, deg, True)
+                ref = BSpline.design_matrix(fit.x, knots, deg).toarray()
+                B = ps.basis.basis.toarray()
+                tol = 64 * EPS * (deg + 1) * 8
+                if B.shape != ref.shape or not np.allclose(B, ref, rtol=0, atol=tol):
+                    return f'step {step} (num_knots={nk}, degree={deg}): the basis handed to the method is not the B-spline basis of the request'
+                if np.any((B != 0).sum(axis=1) > deg + 1):
+                    return f'step {step} (num_knots={nk}, degree={deg}): a row has more than degree+1 non-zeros'
+                kw = dict(lam=10.0, num_knots=nk, spline_degree=deg, max_iter=2, diff_order=1)
+                b, _ = fit.pspline_asls(y, **kw)
+                b2, _ = Baseline(x).pspline_asls(y, **kw)
+                if not np.allclose(b, b2, rtol=1e-9, atol=1e-9):
+                    return (f'step {step} (num_knots={nk}, degree={deg}): pspline_asls on the reused fitter differs from a fresh fitter by '
+                            f'{float(np.max(np.abs(b - b2))):.3g}')
+            return None
+        fit = Baseline2D(x, z)
+        Y = 3 + np.add.outer(np.sin(np.linspace(0, 3, len(x))), np.linspace(0, 1, len(z)))
+        for step, (nk, deg) in enumerate(hist):
+            nk2, deg2 = (nk, max(2, nk - 1)), (deg, max(1, (deg + 1) % 5))
+            _, _, ps = fit._setup_spline(Y, None, deg2, nk2, True, 1, 1.0)
+            for ax, (xx, Bax) in enumerate(((fit.x, ps.basis.basis_r), (fit.z, ps.basis.basis_c))):
+                knots = su._spline_knots(xx, nk2[ax], deg2[ax], True)
+                ref = BSpline.design_matrix(xx, knots, deg2[ax]).toarray()
+                B = Bax.toarray()
+                if B.shape != ref.shape or not np.allclose(B, ref, rtol=0, atol=64 * EPS * (deg2[ax] + 1) * 8):
+                    return f'step {step} (num_knots={nk2}, degree={deg2}): axis {ax} basis is not the B-spline basis of the request'
+        return None
 
 
 def correspond(ctx):
@@ -188,6 +255,26 @@ def correspond(ctx):
                                                 dict(meta, check='btb', y=y.tolist(), w=w.tolist()), True))
             lines.append(f'c12.btb {deg} {qs(knots)} {qs(x)} {qs(y)} {qs(w)}')
             metas.append(('btb', meta, (B, y, w), knots))
+    for two_d, hist in fitter_histories(ctx, rng):
+        n = int(rng.choice([30, 45]))
+        x = x_of(rng, n, ['uniform', 'random'][int(rng.integers(0, 2))])
+        x = np.unique(x)
+        if rng.random() < 0.25:
+            x = x[::-1].copy()
+        z = np.linspace(-1, 2, 24) if two_d else None
+        try:
+            f = fitter_history_fail(two_d, hist, x, z)
+        except Exception as e:
+            f = f'{type(e).__name__}: {e}'
+        ctx.case(('fitter-history', two_d, tuple(hist), len(x)), nontrivial=True,
+                 sample={'reused fitter': '2-D' if two_d else '1-D', 'history (num_knots, degree)': hist} if len(hist) >= 3 else None)
+        ctx.count('fitter-history:%s' % ('2d' if two_d else '1d'))
+        if any(a != b and a[0] + a[1] == b[0] + b[1] for a, b in zip(hist, hist[1:])):
+            ctx.count('fitter-history:same-number-of-bases')
+        if f:
+            dis.append(Disagreement('c12.fitter', 'fitter:history', f'{"Baseline2D" if two_d else "Baseline"} reused over {hist}: {f}',
+                                    {'check': 'fitter', 'two_d': bool(two_d), 'history': [list(h) for h in hist], 'x': x.tolist(),
+                                     'z': None if z is None else z.tolist(), 'deg': 0, 'num_knots': 0}, True))
     res = drive(lines, timeout=1200)
     ctx.traces += len(lines)
     for ln, r, (kind, meta, real, knots) in zip(lines, res, metas):
@@ -226,6 +313,11 @@ def replay(ctx, data):
     r = data['replay']
     x = np.array(r['x'])
     deg, nk = r['deg'], r['num_knots']
+    if r.get('check') == 'fitter':
+        try:
+            return fitter_history_fail(r['two_d'], [tuple(h) for h in r['history']], x, None if r.get('z') is None else np.array(r['z']))
+        except Exception as e:
+            return f'{type(e).__name__}: {e}'
     try:
         basis = su.SplineBasis(x, nk, deg)
         B = basis.basis.toarray()
